@@ -168,6 +168,22 @@ def rotation(rng, cls):
     raise ValueError(cls)
 
 
+EXACT_ROTATIONS = ('cubic-group', 'half-turn', 'miller')
+
+
+def exact_rotation(rng, cls):
+    """Proper axes with small-integer components (exact in int64 and float32): a cubic point-group element,
+    a half turn about a coordinate axis with rows of integer length, integer Miller axes of non-unit length."""
+    if cls == 'miller':
+        a = np.array(_MILLER_AXES[int(rng.integers(0, len(_MILLER_AXES)))], float)
+        if np.dot(np.cross(a[0], a[1]), a[2]) < 0:
+            a[2] = -a[2]
+        return a[[(0, 1, 2), (1, 2, 0), (2, 0, 1)][int(rng.integers(0, 3))], :]
+    if cls == 'cubic-group' or cls == 'half-turn':
+        return np.round(rotation(rng, cls)) + 0.0          # signed permutation matrices: snap cos(pi/2) = 6e-17 to 0
+    raise ValueError(cls)
+
+
 def strain(rng, cls):
     if cls == 'random':
         e = rng.normal(size=(3, 3)) * 1e-3
